@@ -1,8 +1,8 @@
 //! Run one scenario group per child process, so that a crash (abort inside an extern "C"
 //! frame, poisoned global mutex, deadlock) is attributed to that group and cannot cascade.
 
-use vcore::util::J;
-use vh::ctx::Ctx;
+use crate::ctx::Ctx;
+use crate::util::J;
 
 pub fn child_item() -> Option<usize> {
     std::env::var("VA_ITEM").ok().and_then(|x| x.parse().ok())
@@ -73,8 +73,8 @@ pub fn run_child(ctx: &mut Ctx, prop: &str, idx: usize, label: &str, timeout_s: 
     };
     let mut ok = false;
     if let Ok(text) = std::fs::read_to_string(&report) {
-        if let Ok(j) = vcore::util::parse_json(&text) {
-            vh::checks::c06::merge_child(ctx, &j);
+        if let Ok(j) = crate::util::parse_json(&text) {
+            ctx.merge(&j);
             ok = true;
         }
     }
